@@ -141,7 +141,7 @@ package persistence
 //@   trusted
 //@   modifies heap(alloc), ghost obs.find_calls, ghost obs.find_sf, ghost obs.find_err, ghost obs.find_loc, ghost obs.find_id
 //@   ensures obs.find_calls == old(obs.find_calls) + 1 && obs.find_sf == sf && obs.find_err == err && obs.find_loc == dagFile && obs.find_id == requestID
-//@   ensures err == nil ==> (sf != nil && sf.Status != nil)
+//@   ensures err == nil ==> (sf != nil && sf.Status != nil && (forall i int :: 0 <= i && i < len(sf.Status.Nodes) ==> sf.Status.Nodes[i] != nil))
 //@ fn (HistoryStore).Update(hs, dagFile, requestID, st) (err)
 //@   props C20
 //@   trusted
